@@ -160,10 +160,10 @@ def run(prog: Program, res: Result) -> None:
         parts = [x for x in v.values if isinstance(x, ast.FormattedValue)] if isinstance(v, ast.JoinedStr) else []
         concat = isinstance(v, ast.BinOp) and isinstance(v.op, (ast.Add, ast.Mod))
         if len(parts) >= 2 or concat:
-            res.fail("C14.R1b", file=rel, line=r_.lineno, qualname="CachingLoaderMixin.cache_key", construct=f"cache_key returns {norm(v, 50)}", message=f"`{norm(v, 50)}` joins the namespace and the name into one string: different (namespace, name) pairs - and plain names containing the separator - collide, so a template loaded for one namespace is served to another", what=what)
+            res.fail("C14.R1b", file=rel, line=r_.lineno, qualname="CachingLoaderMixin.cache_key", construct=f"cache_key joins the namespace taken from {'the load arguments' if 'args' in norm(v, 200) else ('the render context' if 'context' in norm(v, 200) else 'elsewhere')} and the name into one string", message=f"`{norm(v, 50)}` joins the namespace and the name into one string: different (namespace, name) pairs - and plain names containing the separator - collide, so a template loaded for one namespace is served to another", what=what)
         else:
             res.ok("C14.R1b", f"{rel}:{r_.lineno} CachingLoaderMixin.cache_key", what, "single component / tuple")
-    res.floor("C14.R1b", "returns of cache_key", n_ck, 3)
+    res.floor("C14.R1b", "returns of cache_key", n_ck, 2)
 
     # R2b: a hit hands out the shared object itself and re-labels it for the current caller
     res.rule("C14.R2b", "a cache hit does not change the object other callers still hold: no attribute of the cached template is assigned on a hit (each caller's globals would have to live in a per-call copy)")
@@ -356,8 +356,18 @@ def run(prog: Program, res: Result) -> None:
         site = f"{lrel}:{f.node.lineno} LRUCache.{f.name}"
         what = f"{label} refreshes recency via move_to_end(key)"
         mv = calls(f.node, "move_to_end")
-        if mv and all(len(c.args) == 1 and norm(c.args[0]) == "key" and not c.keywords for c in mv):
-            res.ok("C14.R4", site, what, "self._cache.move_to_end(key)")
+        fcfg = CFG(f.node)
+
+        def _is_move(n: object) -> bool:
+            nd = getattr(n, "node", None)
+            return nd is not None and getattr(n, "kind", "") in ("stmt", "test") and any(c is x for c in mv for x in ast.walk(nd))
+
+        exits = [n for n in fcfg.nodes if n.kind == "stmt" and isinstance(n.node, ast.Return)] + [src for src, lab in fcfg.exit.pred if lab != "exc" and not (src.kind == "stmt" and isinstance(src.node, (ast.Return, ast.Raise)))]
+        every_path = bool(exits) and all(fcfg.all_paths_pass(r, _is_move) or _is_move(r) for r in exits)
+        if mv and all(len(c.args) == 1 and norm(c.args[0]) == "key" and not c.keywords for c in mv) and every_path:
+            res.ok("C14.R4", site, what, "self._cache.move_to_end(key) on every path to a normal exit")
+        elif mv and not every_path:
+            res.fail("C14.R4", file=lrel, line=f.node.lineno, qualname=f"LRUCache.{f.name}", construct=f"{f.name}: move_to_end(key) is conditional", message=f"a cache {label} refreshes recency only on some paths (move_to_end sits under a condition): a hit that leaves no recency trace makes a later eviction remove an entry that was used more recently than the one kept", what=what)
         else:
             res.fail("C14.R4", file=lrel, line=f.node.lineno, qualname=f"LRUCache.{f.name}", construct=f"{f.name} move_to_end calls: {[norm(c) for c in mv]}", message=f"a cache {label} does not move the key to the most-recent end: eviction is no longer least-recently-used", what=what)
     # eviction
